@@ -398,7 +398,7 @@ impl Adapter for InsituAd {
             p.keys = 5;
             p.steps = if size == Size::Quick { 90 } else { 200 };
             p.horizon = 60;
-            p.outs = vec![(GOut::Ok, 3), (GOut::Err(1), 7), (GOut::Err(2), 2)];
+            p.outs = vec![(GOut::Ok, 3), (GOut::Err(1), 7), (GOut::Err(2), 2), (GOut::Panic, 1)];
             p.w_drop = 1;
             p.w_create = 3;
             p.max_adv = 3;
